@@ -734,12 +734,12 @@ func (w *Worker) runState(st *State) (res PathResult) {
 		}
 	}()
 	for {
+		w.stepStart()
 		g := w.pickG()
 		if g == nil {
 			return PathResult{Status: "OK", Steps: st.steps}
 		}
 		fr := g.top()
-		w.stepStart()
 		if fr.panicking || fr.recovered {
 			w.unwindStep(g)
 			w.stepEnd()
@@ -798,10 +798,37 @@ func (w *Worker) pickG() *G {
 		return nil
 	}
 	g := st.gs[st.cur]
+	if w.hr.Cfg.Sched == "all" && st.extra != nil && st.extra["yield"] == true {
+		// a scheduling point: any runnable goroutine may continue (bounded number of switches)
+		var run []int
+		for i, x := range st.gs {
+			if x.status == gRunnable {
+				run = append(run, i)
+			}
+		}
+		if len(run) > 1 && st.preempt < w.hr.Cfg.SchedK {
+			conds := make([]*Term, len(run))
+			for i := range conds {
+				conds[i] = TTrue
+			}
+			c := w.decideN(conds, "schedule")
+			st.extra = setExtra(st.extra, "yield", false)
+			if run[c] != st.cur {
+				if g.status == gRunnable {
+					st.preempt++
+				}
+				st.cur = run[c]
+			}
+			st.sched = append(st.sched, run[c])
+			return st.gs[st.cur]
+		}
+		st.extra = setExtra(st.extra, "yield", false)
+	}
 	if g.status == gRunnable {
 		return g
 	}
-	// find another runnable
+	// the current goroutine cannot continue: the next runnable one (round robin) continues;
+	// other orders are reached through the bounded pre-emptive switches above
 	for i := 1; i <= len(st.gs); i++ {
 		j := (st.cur + i) % len(st.gs)
 		if st.gs[j].status == gRunnable {
@@ -1451,6 +1478,7 @@ func (w *Worker) spawn(fn Value, args []Value, in ssa.Instruction) {
 	ng.frames = append(ng.frames, nf)
 	w.enterBlock(nf)
 	st.cur = saveCur
+	w.yieldPoint()
 }
 
 // sortedKeys is a helper for deterministic iteration over string-keyed maps.
